@@ -4,6 +4,7 @@ from ..terms import TermBuilder
 from .. import obscure, codec
 
 NEED_DEPS = True
+USES_QUERIES = True
 EXPLANATION = (
     "FLOW/WHO/REC rules. C02.1: census of every digest-declaring sink (SymmetricKey::encrypt_with_digest, "
     "Compressed::from_uncompressed_data, callers of the Elided constructor). C02.2: at each sink the payload must be the "
